@@ -103,3 +103,65 @@ Theorem optimal_value_unique (m : mdp R) V1 V2 :
   wf m -> gamma m < 1 -> fixpoint m V1 -> fixpoint m V2 ->
   forall s, (s < nS m)%nat -> V1 s = V2 s.
 Proof. apply fixpoint_unique. Qed.
+
+(* ---------------- undiscounted case ---------------- *)
+From MSDM Require Import theory.VIUndisc.
+Section MainUndisc.
+Variables (nS nA : nat) (P Rw : list (list (list Q))) (av : list (list bool)) (ab : list bool)
+          (ini : list Q) (g : Q) (V : list Q) (Qv : list (list (option Q))) (Pi : list (list Q))
+          (iv : Q) (tl : @tols Q) (N : list Q).
+Notation mR' := (mR nS nA P Rw av ab ini g).
+Notation oR' := (oR V Qv Pi iv).
+
+Hypothesis Hchk :
+  @c01_check Q NumQ (mk_mdp nS nA P Rw av ab ini g) (mk_out V Qv Pi iv) tl = all_true.
+Hypothesis HchkU :
+  @c01_undisc_check Q NumQ (mk_mdp nS nA P Rw av ab ini g) (mk_out V Qv Pi iv) N = [true; true; true].
+
+Lemma clausesU :
+  c_nonpos mR' oR' = true /\ c_rnonpos mR' = true /\ c_N mR' oR' (untab (map Q2R N)) = true.
+Proof.
+  pose proof HchkU as H. rewrite c01_undisc_check_transfer in H.
+  unfold c01_undisc_check in H. injection H as H1 H2 H3. repeat split; assumption.
+Qed.
+
+(* every value-iteration iterate T^k 0 — hence their limit — is at least V - delta*N *)
+Theorem main_undisc_lower B :
+  0 <= Q2R (epsb tl) -> 0 <= Q2R (qtol tl) -> 0 <= Q2R (atol_lo tl) -> 0 <= Q2R (rtol_lo tl) -> 0 <= B ->
+  (forall s mx, (s < nS)%nat -> maxQ mR' oR' s = Some mx -> band_hi (tR tl) mx <= B) ->
+  forall k s, (s < nS)%nat ->
+    Vz mR' oR' s - (Q2R (epsb tl) + B + 2 * Q2R (qtol tl)) * untab (map Q2R N) s <= itT mR' k s.
+Proof.
+  intros He Hq0 Hat Hrt HB0 HB k s Hs.
+  destruct (clauses nS nA P Rw av ab ini g V Qv Pi iv tl Hchk) as (_ & Hab & _ & Hr & Hq & Hpol & _).
+  destruct clausesU as (Hnp & _ & HcN).
+  apply (undisc_lower mR' oR' (tR tl) (untab (map Q2R N)) B
+           (mR_wf nS nA P Rw av ab ini g V Qv Pi iv tl Hchk) He Hq0 Hat Hrt HB0 Hab Hr Hq Hpol Hnp HcN HB k s Hs).
+Qed.
+
+Lemma rewards_nonpos s a :
+  (s < nS)%nat -> (a < nA)%nat -> avail mR' s a = true -> Rm mR' s a <= 0.
+Proof.
+  intros Hs Ha Hav. destruct clausesU as (_ & H & _). unfold c_rnonpos in H.
+  rewrite forallbn_spec in H. specialize (H s Hs). rewrite forallbn_spec in H. specialize (H a Ha).
+  rewrite Hav in H. simpl in H. now apply nleb_Rle in H.
+Qed.
+
+(* the iterates decrease, so every iterate from k on lies below T^k 0 *)
+Theorem main_undisc_antitone j k s :
+  (k <= j)%nat -> (s < nS)%nat -> itT mR' j s <= itT mR' k s.
+Proof.
+  intros Hle Hs.
+  exact (itT_antitone mR' (mR_wf nS nA P Rw av ab ini g V Qv Pi iv tl Hchk) rewards_nonpos j k s Hle Hs).
+Qed.
+
+(* and every iterate dominates every non-positive sub-solution (e.g. the optimal total reward) *)
+Theorem main_undisc_upper U :
+  (forall s, (s < nS)%nat -> U s <= 0) -> (forall s, (s < nS)%nat -> U s <= Top mR' U s) ->
+  forall k s, (s < nS)%nat -> U s <= itT mR' k s.
+Proof.
+  intros H0 Hsub k s Hs.
+  exact (itT_upper mR' U (mR_wf nS nA P Rw av ab ini g V Qv Pi iv tl Hchk) H0 Hsub k s Hs).
+Qed.
+
+End MainUndisc.
